@@ -460,6 +460,17 @@ pub fn zoo() -> Vec<Entry> {
 		BTreeMap<i64, BTreeMap<u8, bool>>, BTreeMap<u16, BTreeSet<u8>>);
 	add!(v; codec: VecDeque<()>, LinkedList<()>, BTreeSet<()>);
 
+	// less travelled combinations (rarely used impls, deeper nests, edge shapes)
+	add!(v; full: Vec<[u8; 32]>, VecDeque<Vec<u8>>, Option<Option<Option<bool>>>, Result<Result<u8, u16>, Vec<u8>>,
+		BTreeMap<String, BTreeMap<u8, String>>, LinkedList<Option<u16>>, BinaryHeap<String>, BinaryHeap<Vec<u8>>, BTreeSet<Option<u8>>,
+		Rc<Vec<String>>, Arc<BTreeMap<u8, u8>>, Vec<Rc<u32>>, Vec<Arc<String>>, VecDeque<Box<u16>>, LinkedList<Rc<u8>>,
+		Range<u128>, RangeInclusive<u8>, Range<i64>, Vec<Duration>, Option<Duration>, [Duration; 2], Vec<Range<u16>>,
+		(Duration, Range<u8>, OptionBool), Vec<NonZeroI64>, [NonZeroU8; 4], Option<NonZeroU128>, BTreeMap<NonZeroU8, OptionBool>,
+		Vec<(Compact<u8>, Compact<u64>)>, BTreeMap<u8, Compact<u128>>, Option<Compact<()>>, Vec<Compact<()>>,
+		LinkedList<(u8, String)>, BTreeSet<(u8, Vec<u8>)>, BTreeMap<Vec<u8>, Vec<String>>, VecDeque<VecDeque<u8>>,
+		Box<Rc<Arc<String>>>, Option<Rc<Vec<u16>>>, (Box<u8>, Rc<u16>, Arc<u32>), Cow<'static, Vec<u8>>, Cow<'static, (u8, u16)>,
+		[u32; 2048], [u64; 4096], Box<[u8; 100000]>, [Vec<u8>; 8], [Option<String>; 4], [[[u8; 2]; 2]; 2], [(); 0], [String; 0]);
+
 	// arrays
 	add!(v; full: [u8; 0], [u8; 1], [u8; 2], [u8; 3], [u8; 7], [u8; 8], [u8; 31], [u8; 32], [u8; 33], [u8; 64], [u8; 100],
 		[u8; 2048], [u16; 3], [u32; 8], [u64; 2], [u128; 3], [i8; 5], [i16; 2], [i32; 7], [i64; 1], [i128; 2], [f32; 3], [f64; 2],
@@ -501,6 +512,7 @@ pub fn zoo() -> Vec<Entry> {
 		add!(v; full: BitVec<u8, Lsb0>, BitVec<u8, Msb0>, BitVec<u16, Lsb0>, BitVec<u16, Msb0>, BitVec<u32, Lsb0>, BitVec<u32, Msb0>,
 			BitVec<u64, Lsb0>, BitVec<u64, Msb0>, BitBox<u8, Lsb0>, BitBox<u8, Msb0>, BitBox<u16, Lsb0>, BitBox<u32, Msb0>,
 			BitBox<u64, Lsb0>, Vec<BitVec<u8, Msb0>>, (BitVec<u16, Lsb0>, u8));
+		add!(v; full: BitBox<u64, Msb0>, Option<BitVec<u8, Lsb0>>, BTreeMap<u8, BitVec<u16, Msb0>>, [BitVec<u8, Msb0>; 2], Box<BitVec<u32, Lsb0>>);
 		add!(v; enc: BitSliceOf<u8, Lsb0>, BitSliceOf<u8, Msb0>, BitSliceOf<u16, Lsb0>, BitSliceOf<u16, Msb0>,
 			BitSliceOf<u32, Lsb0>, BitSliceOf<u32, Msb0>, BitSliceOf<u64, Lsb0>, BitSliceOf<u64, Msb0>);
 	}
@@ -513,7 +525,9 @@ pub fn zoo() -> Vec<Entry> {
 	{
 		use generic_array::{typenum::*, GenericArray};
 		add!(v; codec: GenericArray<u8, U0>, GenericArray<u8, U1>, GenericArray<u16, U3>, GenericArray<u32, U7>,
-			GenericArray<u8, U32>, GenericArray<String, U3>, GenericArray<Option<u16>, U7>, Vec<GenericArray<u8, U3>>);
+			GenericArray<u8, U32>, GenericArray<String, U3>, GenericArray<Option<u16>, U7>, Vec<GenericArray<u8, U3>>,
+			GenericArray<Vec<u8>, U3>, GenericArray<u64, U32>, Option<GenericArray<u16, U3>>, GenericArray<GenericArray<u8, U3>, U3>,
+			Box<GenericArray<u32, U7>>);
 	}
 	#[cfg(feature = "derive")]
 	{
@@ -534,8 +548,9 @@ pub fn zoo() -> Vec<Entry> {
 			PhantomData<u32>, Range<u32>, RangeInclusive<i16>, Box<u32>, Box<[u8; 100]>, Box<Box<u8>>,
 			[u8; 0], [u8; 1], [u8; 32], [u8; 2048], [u16; 3], [u128; 3], [i64; 1], [bool; 3], [[u8; 2]; 3], [(u8, u16); 3],
 			(u8,), (u8, u16), (u8, u16, u32), (u8, u16, u32, u64, u128, i8, i16, i32, i64, i128, bool, u8, u16, u32, u64, u8, u16),
-			[Box<u32>; 3]);
-		mark!(v; mel: Compact<u8>, Compact<u16>, Compact<u32>, Compact<u64>, Compact<u128>, Compact<()>,
+			[Box<u32>; 3], Range<u128>, RangeInclusive<u8>, Range<i64>, [Duration; 2], [NonZeroU8; 4], [u32; 2048], [[[u8; 2]; 2]; 2],
+			Box<[u8; 100000]>, [(); 0]);
+		mark!(v; mel: Option<Duration>, Option<NonZeroU128>, Option<Option<Option<bool>>>, Option<Compact<()>>, Compact<u8>, Compact<u16>, Compact<u32>, Compact<u64>, Compact<u128>, Compact<()>,
 			Option<u8>, Option<bool>, Option<Option<u32>>, Result<u8, bool>, Result<Option<u16>, Result<bool, u64>>,
 			Option<Compact<u32>>, Option<NonZeroU16>, Range<Compact<u64>>, [Option<u8>; 3], [Compact<u32>; 4],
 			(Compact<u8>, Compact<u128>), (Compact<u64>,), Arc<u16>, Box<Option<Box<u16>>>, Option<Box<[u64; 3]>>,
